@@ -705,6 +705,9 @@ def merge_measure_contents(notes, other, measure_start, segment_end=None):
 
         else:
             elements = notes[voice]
+            if elements:
+                # fill gaps between the notes of this voice with <forward>
+                elements, _ = merge_with_voice(elements, [], elements[0][0])
 
         # backup/forward when switching voices if necessary
         if elements:
